@@ -55,3 +55,99 @@ def judge(case, impl_out, spec):
 
 def nontrivial(case, impl_out):
     return bool(case.meta.get("nt"))
+
+
+def second_pass(run, cs, impl_out):
+    """The same calls on a "slow machine": the evaluation-time warning threshold is set below any measurable time, so
+    every context evaluation takes the slow-evaluation warning path.  Order of events and verdicts must not change."""
+    import importlib
+    import warnings
+
+    import impl
+    from framework import Finding
+
+    K = importlib.import_module("dltype._lib._constants")
+    idx = [i for i, c in enumerate(cs) if c.tag == "corpus"] + list(range(len(cs)))[:: max(1, len(cs) // (2500 if run.tier == "quick" else 20000))]
+    old = K.MAX_ACCEPTABLE_EVALUATION_TIME_NS
+    K.MAX_ACCEPTABLE_EVALUATION_TIME_NS = -1
+    n = bad = 0
+    try:
+        with warnings.catch_warnings():
+            warnings.simplefilter("ignore")
+            for i in idx:
+                got = impl.handle(cs[i].line)
+                n += 1
+                if got != impl_out[i]:
+                    bad += 1
+                    if bad <= 5:
+                        run.findings.append(Finding("failing-input", "the outcome of a call changes when the context evaluation is slower than the warning threshold "
+                                                    f"(MAX_ACCEPTABLE_EVALUATION_TIME_NS): normally {impl_out[i]!r}, slow {got!r}", Case(cs[i].line, "slow", {}), got, impl_out[i], ""))
+    finally:
+        K.MAX_ACCEPTABLE_EVALUATION_TIME_NS = old
+    run.n_cases += n
+    run.coverage["slow_path_calls"] = n
+    run.coverage["slow_path_differences"] = bad
+    run.dist["slow-path"] += n
+    return None
+
+
+def custom(run, tier):
+    """In-place reshaping bodies: parameter and return hint share ONE annotation object (a type alias); the body changes
+    the shape of its argument in place and returns that very object.  The return check must judge the object as it is
+    AFTER the body (identity of the array or of the annotation must not let it skip the check)."""
+    import typing
+    import warnings
+
+    import numpy as np
+    import torch
+
+    import impl
+    from framework import Finding
+
+    dltype = impl.dltype
+    ann = dltype.FloatTensor["r c"]
+    n = 0
+    for lib, base in (("numpy", np.ndarray), ("torch", torch.Tensor)):
+        T = typing.Annotated[base, ann]
+        log = []
+        new_shape = [None]
+
+        def body(x):
+            log.append("body")
+            if lib == "numpy":
+                x.shape = new_shape[0]
+            else:
+                x.resize_(*new_shape[0])
+            return x
+
+        body.__annotations__ = {"x": T, "return": T}
+        with warnings.catch_warnings():
+            warnings.simplefilter("ignore")
+            f = dltype.dltyped()(body)
+            for r in (1, 2, 3):
+                for c in (1, 2, 3, 4):
+                    for how, ns in (("same", (r, c)), ("transposed", (c, r)), ("flattened", (r * c,)), ("extra axis", (r, c, 1)), ("regrouped", (1, r * c))):
+                        x = np.zeros((r, c), np.float32) if lib == "numpy" else torch.zeros((r, c))
+                        new_shape[0] = ns
+                        del log[:]
+                        try:
+                            out = f(x)
+                            got = "returned" + ("" if out is x else "-different-object")
+                        except dltype.DLTypeError as e:
+                            got = "rejected " + type(e).__name__
+                        except Exception as e:  # noqa: BLE001
+                            got = "pyexc " + type(e).__name__
+                        want = "returned" if ns == (r, c) else "rejected"
+                        n += 1
+                        line = f"INPLACE\t{lib}\tx:{r}.{c}\tbody reshapes x in place to {'.'.join(map(str, ns))} ({how}) and returns it\tone shared annotation FloatTensor['r c']"
+                        if len(log) != 1:
+                            run.findings.append(Finding("failing-input", f"the body ran {len(log)} times for conforming arguments", Case(line, "inplace"), got, "", want))
+                        elif not got.startswith(want) or got.endswith("different-object"):
+                            run.findings.append(Finding("failing-input", f"the body returned its argument reshaped in place to {ns}; under the return annotation 'r c' with r={r}, c={c} the call must be {want}, but it {got}",
+                                                        Case(line, "inplace"), got, "", want))
+                        if n % 37 == 0 and len(run.samples) < 12:
+                            run.samples.append({"op": line, "impl": got, "tag": "inplace"})
+    run.n_cases += n
+    run.n_distinct_nontrivial += n
+    run.dist["inplace"] += n
+    run.coverage["inplace_calls"] = n
